@@ -201,6 +201,7 @@ def c18_schema():
         G("parties", 34, fields=[F("id", 1, "sym"), F("role", 2, "Status", presence="optional")]),
         G("hollow", 35, sinceVersion=5, fields=[]),
     ], data=[D("text", 40, "varStr"), D("raw", 41)])
+    m1["fields"].append(F("optbig", 21, "Decimal", presence="optional", description="optional composite at the root"))
     m1["data"][0].update(description="free text", sinceVersion=3, deprecated=4)
     m1["data"][1].update(sinceVersion=5)
     m1["groups"][0]["groups"][0]["data"][0].update(description="fill note", deprecated=5)
@@ -215,7 +216,8 @@ def c18_schema():
                 G("c", 4, fields=[F("w", 1, "uint8")], data=[D("cd", 5, "varStr")])])]),
         G("a_b", 6, fields=[F("z", 1, "uint16")], groups=[
             G("c", 7, dimensionType="dimX", fields=[F("v", 1, "uint32"), F("v2", 2, "uint8")])], data=[D("abd", 8)]),
-        G("a_b_c", 9, fields=[F("q", 1, "sym")]),
+        G("a_b_c", 9, fields=[F("q", 1, "sym"), F("optpx", 2, "Decimal", presence="optional", description="optional composite"),
+                              F("reqpx", 3, "Decimal", presence="required"), F("u64", 4, "uint64"), F("i64o", 5, "int64", presence="optional")]),
     ])
     return {"package": "c18x", "id": 901, "version": 5, "semanticVersion": "5.2.1", "description": "C18 trait schema",
             "byteOrder": "bigEndian", "types": types, "messages": [m1, m2, m3, m4]}
